@@ -153,13 +153,8 @@ bound<Number> bound<Number>::operator/(const bound<Number> &x) const {
   } else if (is_finite() && x.is_finite()) {
     return bound<Number>(false, _n / x._n);
   } else if (is_finite() && x.is_infinite()) {
-    if (_n > 0) {
-      return x;
-    } else if (_n == 0) {
-      return *this;
-    } else {
-      return x.operator-();
-    }
+    // a finite number divided by an infinite one tends to zero
+    return bound<Number>(false, Number(0));
   } else if (is_infinite() && x.is_finite()) {
     if (x._n > 0) {
       return *this;
